@@ -38,8 +38,12 @@ fn tuple_ops(op: char) -> Option<&'static str> {
     match op {
         '2' => Some("IS"),
         '3' => Some("SIB"),
-        '4' => Some("ISBH"),
-        '5' => Some("BISUH"),
+        '4' => Some("ICBH"),
+        '5' => Some("BICUH"),
+        // read_vec::<i32>(1) / (2) / (3): by the property the same as that many single reads
+        'v' => Some("I"),
+        'w' => Some("II"),
+        'x' => Some("III"),
         '6' => Some("ISBHWQ"),
         '7' => Some("SIBUWHX"),
         '8' => Some("ISBUWQHX"),
@@ -168,8 +172,9 @@ fn real(script: &str, data: &[u8], sched: &[Option<usize>]) -> Result<Vec<String
                 'C' => out.push(format!("{:?}", r.read::<char>())),
                 '2' => { let t: (i32, String) = r.read(); out.push(format!("{}", t.0)); out.push(format!("{:?}", t.1)); }
                 '3' => { let t: (String, i32, u8) = r.read(); out.push(format!("{:?}", t.0)); out.push(format!("{}", t.1)); out.push(format!("{}", t.2)); }
-                '4' => { let t: (i32, String, u8, i64) = r.read(); out.push(format!("{}", t.0)); out.push(format!("{:?}", t.1)); out.push(format!("{}", t.2)); out.push(format!("{}", t.3)); }
-                '5' => { let t: (u8, i32, String, u32, i64) = r.read();
+                'v' | 'w' | 'x' => { let n = match op { 'v' => 1, 'w' => 2, _ => 3 }; for e in r.read_vec::<i32>(n) { out.push(format!("{}", e)); } }
+                '4' => { let t: (i32, char, u8, i64) = r.read(); out.push(format!("{}", t.0)); out.push(format!("{:?}", t.1)); out.push(format!("{}", t.2)); out.push(format!("{}", t.3)); }
+                '5' => { let t: (u8, i32, char, u32, i64) = r.read();
                     out.push(format!("{}", t.0)); out.push(format!("{}", t.1)); out.push(format!("{:?}", t.2)); out.push(format!("{}", t.3)); out.push(format!("{}", t.4)); }
                 '6' => { let t: (i32, String, u8, i64, u64, u128) = r.read();
                     out.push(format!("{}", t.0)); out.push(format!("{:?}", t.1)); out.push(format!("{}", t.2)); out.push(format!("{}", t.3)); out.push(format!("{}", t.4)); out.push(format!("{}", t.5)); }
@@ -225,7 +230,7 @@ pub fn run(_seed: u64, replay: Option<String>) -> Outcome {
         return Outcome { cex: check(p[0], &unhex(p[1]), &parse_sched(p[2])), cases: 1 };
     }
     let alpha = [b'\n', b'\r', b'7', b' ', b'-'];
-    let scripts = ["LLLLL", "ELLLL", "LELEL", "SESES", "IEIEI", "CCECC", "EEL", "SLL", "ILL", "A", "LA", "SA", "UEUEU", "BWL", "WQE", "HXH", "UL", "QQ"];
+    let scripts = ["vLL", "wLL", "vEL", "vvL", "LLLLL", "ELLLL", "LELEL", "SESES", "IEIEI", "CCECC", "EEL", "SLL", "ILL", "A", "LA", "SA", "UEUEU", "BWL", "WQE", "HXH", "UL", "QQ"];
     let mut cases = 0u64;
     for len in 0..=4usize {
         let total = alpha.len().pow(len as u32);
@@ -290,13 +295,19 @@ pub fn run(_seed: u64, replay: Option<String>) -> Outcome {
         ("BUWQHX", "0 0 0 0 9223372036854775807 170141183460469231731687303715884105727"), ("IHXE", "-2147483648\r\n9223372036854775807\t-1 "), ("WUB", "10000000000 65536 7"),
         // tuples of every arity, distinct components (an out-of-order or dropped component shows), followed by a line that must stay unread
         ("2L", "-7 ab\nrest"), ("3E", "ab\t-2147483648 255 "), ("4L", "1 x 2 -3\r\nrest\n"), ("5L", "1 -2 x 4 -5\nrest"), ("6E", "1 x 2 -3 4 5"),
-        ("7L", "x -1 2 3 4 -5 -6\nrest"), ("8L", "-1 x 2 3 4 5 -6 -7\nrest\n"), ("82", "1 a 2 3 4 5 6 7 8 b")];
+        ("7L", "x -1 2 3 4 -5 -6\nrest"), ("8L", "-1 x 2 3 4 5 -6 -7\nrest\n"), ("82", "1 a 2 3 4 5 6 7 8 b"),
+        // vectors followed by line reads; two tuples with a char component in a row (stale buffer contents after a short read)
+        ("BxLL", "3\n10 20 30\nabc\n"), ("xLE", "-1 2 -3\r\n\r\n"), ("44E", "1 a 2 3\n4 b 5 6\n"), ("55L", "1 -2 x 4 -5\n6 7 y 8 9\nrest")];
     for (script, text) in ext {
         let data = text.as_bytes().to_vec();
         let mut scheds: Vec<Vec<Option<usize>>> = vec![vec![], vec![Some(1); data.len() + 1]];
         for cut in 1..data.len() {
             scheds.push(vec![Some(cut)]);
             scheds.push(vec![Some(cut), None, None, Some(1)]);
+        }
+        if data.len() <= 40 {
+            // every three-way split (a later read shorter than an earlier one leaves stale bytes behind the window)
+            for c1 in 1..data.len() { for c2 in c1 + 1..data.len() { scheds.push(vec![Some(c1), Some(c2 - c1)]); } }
         }
         for sched in scheds {
             cases += 1;
